@@ -228,3 +228,24 @@ PROPS["C07"] = dict(
     level_note="Trusted: as C06.",
     assumptions=["mapping non-degenerate on the grid"],
 )
+
+PROPS["C08"] = dict(
+    harness="c08_transfer", flavour="rel",
+    quick=dict(workers=8, cases=3000, min_nontrivial=300),
+    thorough=dict(workers=16, cases=200000, min_nontrivial=3000, budget_s=3000),
+    rule="Fine grids that can be coarsened (nr odd 5..41, ntheta%4==0 8..64, 1% with >10000 nodes for the parallel path), "
+         "half of them midpoint-nested (as the grid generator produces), half with free spacing; splits chosen "
+         "independently on both levels (coarse level automatic as coarseningGrid or explicit 0..all circles); threads "
+         "1,2,5,16; coarse and fine vectors of six kinds; random linear functions a+b*r, a+b*theta (two branch cuts). "
+         "Standard and extrapolated pair: adjointness, optimised==reference, injection(P x)==x bitwise, no new extrema, "
+         "probed weights >=0 summing to 1 (1 in 3 grids <=600 nodes), linear reproduction at every fine node - "
+         "non-midpoint nodes of the standard pair are the recorded finding F6 and are excluded (counted); the "
+         "extrapolated pair's 1/2-1/2 rule is only held to midpoint nodes. Non-trivial: non-uniform spacing or >10000 "
+         "nodes. Distinct: (dims, circles on both levels, threads, uniform?, probed?).",
+    technique="property-based testing (rapidcheck); adjoint-pair, differential (optimised vs reference), round-trip and polynomial-exactness oracles",
+    level_text="Generated fine/coarse level pairs exercise all ten transfer operators; algebraic laws (adjointness within a "
+               "computed rounding bound, bitwise round trip, convexity, exactness on linear functions) are checked at every "
+               "node. Exploration over generated grids and vectors.",
+    level_note="Trusted: rounding bound 16*eps*(|y|^T P|x| + |x|^T R|y|) (weights are non-negative so P|x| = |P||x|).",
+    assumptions=["coarse grids are obtained by keeping every second node (coarseningGrid)"],
+)
